@@ -232,23 +232,19 @@ def enum_cases(rng, thorough):
         (0, [], [1], ["r read 64 0"], 3),
         (1, ["pre w " + "a1" * 4084, "pre r read 8192"], [5, 0], ["r read 64 0", "r read 64 0"], 2),
         (0, ["pre w " + "a1" * 4080, "pre r read 8192"], [4], ["r peek 0", "r reclaim"], 2),
-        (1, ["pre w " + (le32(8) + le32(MAGIC)).hex() * 509], [8], ["r read 8192 0", "r reclaim"], 2),
+        # ring full up to the gap: A (4 words) at the head, B behind it; the write is refused until read_pt has moved
+        (1, ["pre w " + (le32(8) + le32(MAGIC)).hex(), "pre w " + (le32(8) + le32(MAGIC)).hex() * 508], [8],
+         ["r read 8192 0", "r reclaim"], 2),
+        (0, ["pre w " + "a1" * 4076, "pre r read 8192", "pre w " + (le32(4) + le32(DEAD)).hex(),
+             "pre w " + (le32(8) + le32(MAGIC)).hex() * 508], [5, 0], ["r peek 0", "r reclaim"], 2),
     ]
     if not thorough:
         mixes = [(ns, pro, wl, rc, 1) for ns, pro, wl, rc, _ in mixes]
     for ns, pro, wl, rc, npre in mixes:
         head = ["open 100 %d 0" % ns] + pro + ["w " + hexs(payload(rng, i + 1, n)) for i, n in enumerate(wl)] + rc
         mw = sum(wsteps(n, ns) for n in wl) + 1
-        big = 4072 if any("509" in x or len(x) > 8000 for x in pro) and "r read 8192 0" in rc else 0
         mr = sum(16 + max(wl) for _ in rc) + 1
-        if big:
-            # the reader first copies the big chunk out: skip the copy, enumerate around its end
-            scheds = []
-            for s in enum_schedules(rng, mw, 24, npre):
-                scheds.append(s.replace("run ", "run 1:%d " % (4 + 4072 - 4), 1))
-        else:
-            scheds = enum_schedules(rng, mw, mr, npre)
-        for s in scheds:
+        for s in enum_schedules(rng, mw, mr, npre):
             cases.append(head + [s, "drain"])
     return cases
 
